@@ -95,6 +95,9 @@ pub fn on_server_message(sim: &mut Sim, c: usize, ch: usize, bytes: &[u8], id: u
                 }
             }
             sess.upd_sent.push((msg.tick, id));
+            if msg.tick == 0 {
+                sess.tick0 = true;
+            }
             let first = !sess.first_update_checked;
             sess.first_update_checked = true;
             first
@@ -536,6 +539,7 @@ pub fn after_client_frame(sim: &mut Sim, c: usize) {
     }
     let (u, held, tc, ts) = client_view(&sim.clients[c].app);
     let mut v: Vec<(&'static str, &'static str, String)> = vec![];
+    let mut f20_hits = 0u64;
     let sid = sim.clients[c].sess.as_ref().unwrap().id;
     let authorized = sim.clients[c].sess.as_ref().unwrap().authorized;
     let _ = authorized;
@@ -590,7 +594,7 @@ pub fn after_client_frame(sim: &mut Sim, c: usize) {
                     }
                     for k in ALL_KINDS {
                         if sc.contains_key(&k) != comps.contains_key(&k) {
-                            if k == Kind::Link && link_tainted(sess, *se, *lt) {
+                            if k == Kind::Link && !sim.no_taint && link_tainted(sess, *se, *lt) {
                                 continue;
                             }
                             v.push(("C03", "component_presence", format!("client {c}: entity {se:#x} at update tick {u}: {k:?} present on server={} on client={}", sc.contains_key(&k), comps.contains_key(&k))));
@@ -650,7 +654,9 @@ pub fn after_client_frame(sim: &mut Sim, c: usize) {
         };
         for k in VALUE_KINDS {
             if let (Some(a), Some(b)) = (sc.get(&k), comps.get(&k)) {
-                if a != b {
+                if a != b && !sim.no_taint && sess.f20_ents.contains(se) {
+                    f20_hits += 1;
+                } else if a != b {
                     v.push(("C02", "value_at_confirmed_tick", format!("client {c}: entity {se:#x} {k:?} = {b:?} but the server had {a:?} at its confirmed tick {lt} (update tick {u})")));
                 }
             }
@@ -678,7 +684,7 @@ pub fn after_client_frame(sim: &mut Sim, c: usize) {
         for k in [Kind::Ref, Kind::Link] {
             if let (Some(Val::Ent(st)), Some(Val::Ent(ct))) = (sc.get(&k), comps.get(&k)) {
                 let taint = sess.ent_taint.get(&(*se, k)).copied().unwrap_or(0);
-                if taint > *lt {
+                if taint > *lt && !sim.no_taint {
                     continue;
                 }
                 let target_held = held.get(st).map(|h| h.0);
@@ -781,7 +787,10 @@ pub fn after_client_frame(sim: &mut Sim, c: usize) {
         if o.kind != SEv::Ind {
             // C04: everything replicated to this client up to the flush tick has been applied.
             if let Some(sent) = sess.sev_sent.get(&o.seq).and_then(|l| l.first()) {
-                if sess.upd_delivered < sent.upd_before {
+                if !sim.no_taint && sess.tick0 && sess.upd_delivered == 0 && sent.upd_before == 1 {
+                    // Known finding F20: tick 0 cannot be told from "nothing received yet".
+                    f20_hits += 1;
+                } else if sess.upd_delivered < sent.upd_before {
                     v.push(("C04", "event_before_replication", format!("client {c} saw {:?} seq {} flushed at tick {} after {} update messages, but only {} of them were delivered (update tick {u})", o.kind, o.seq, sent.flush_tick, sent.upd_before, sess.upd_delivered)));
                 }
             }
@@ -843,6 +852,9 @@ pub fn after_client_frame(sim: &mut Sim, c: usize) {
         }
     }
 
+    if f20_hits > 0 {
+        *sim.stats.probes.entry("known_F20_hit".into()).or_insert(0) += f20_hits;
+    }
     // ---- commit bookkeeping
     let sess = sim.clients[c].sess.as_mut().unwrap();
     sess.last_u = u;
@@ -924,7 +936,7 @@ pub fn end_of_run(sim: &mut Sim) {
                     for k in ALL_KINDS {
                         let (a, b) = (sc.get(&k), comps.get(&k));
                         if a.is_some() != b.is_some() {
-                            if k == Kind::Link && link_tainted(sess, bits, *lt) {
+                            if k == Kind::Link && !sim.no_taint && link_tainted(sess, bits, *lt) {
                                 continue;
                             }
                             v.push(("C01", "component_presence", format!("client {c}: slot {i} {k:?} server={a:?} client={b:?} after quiescence")));
@@ -935,7 +947,7 @@ pub fn end_of_run(sim: &mut Sim) {
                             Kind::P => {
                                 if a != b {
                                     let Val::Ver(sv) = a else { continue };
-                                    if sess.p_taint.contains(&(bits ^ ((*sv as u64) << 40))) {
+                                    if !sim.no_taint && sess.p_taint.contains(&(bits ^ ((*sv as u64) << 40))) {
                                         sim.stats.probes.entry("known_F4_hit".into()).and_modify(|x| *x += 1).or_insert(1);
                                         continue;
                                     }
@@ -952,7 +964,7 @@ pub fn end_of_run(sim: &mut Sim) {
                             }
                             Kind::Ref | Kind::Link => {
                                 let (Val::Ent(st), Val::Ent(ct)) = (a, b) else { continue };
-                                if sess.ent_taint.get(&(bits, k)).copied().unwrap_or(0) > *lt {
+                                if !sim.no_taint && sess.ent_taint.get(&(bits, k)).copied().unwrap_or(0) > *lt {
                                     sim.stats.probes.entry("known_F17_hit".into()).and_modify(|x| *x += 1).or_insert(1);
                                     continue;
                                 }
@@ -967,7 +979,9 @@ pub fn end_of_run(sim: &mut Sim) {
                                 }
                             }
                             _ => {
-                                if a != b {
+                                if a != b && !sim.no_taint && sess.f20_ents.contains(&bits) {
+                                    *sim.stats.probes.entry("known_F20_hit".into()).or_insert(0) += 1;
+                                } else if a != b {
                                     v.push(("C01", "value", format!("client {c}: slot {i} {k:?} server={a:?} client={b:?} after quiescence (confirmed tick {lt})")));
                                 }
                             }
@@ -1002,7 +1016,14 @@ pub fn end_of_run(sim: &mut Sim) {
                     (Some(_), None) => false,
                     (None, _) => true,
                 };
-                if !dropped && resolvable {
+                let f20 = !sim.no_taint
+                    && sess.tick0
+                    && e.target.is_some()
+                    && sess.sev_sent.get(&e.seq).map(|l| l.iter().any(|s| s.upd_before == 1 && s.stamp == Some(0))).unwrap_or(false);
+                if f20 {
+                    *sim.stats.probes.entry("known_F20_hit".into()).or_insert(0) += 1;
+                }
+                if !dropped && resolvable && !f20 {
                     v.push(("C05", "reliable_event_lost", format!("client {c} session {} never observed {:?} seq {} (mode {:?}, emitted at step {}) although its session is still up", sess.id, e.kind, e.seq, e.mode, e.step)));
                 }
             }
